@@ -483,7 +483,7 @@ Definition arbitrary_of (vals : amap) : amap :=
 Definition register_post : M unit :=
   vals <- read_values ;;
   if negb (valid [pid_rule; password_rule] pw_pairs vals) then
-    respond (bs "register") [(bs "errors", DOther); (bs "preserve", DOther)]
+    log [] ;;; respond (bs "register") [(bs "errors", DOther); (bs "preserve", DOther)]
   else
   let pid := aget pid_field vals in
   let password := aget f_password vals in
